@@ -189,11 +189,29 @@ def run(ck):
         if recs is None:
             return
         evaluate(ck, recs, tag="corpus_")
-    args = ["-gaters", "24", "-limiters", "12"] if ck.tier == "quick" else ["-gaters", "400", "-limiters", "200"]
+    args = ["-gaters", "24", "-limiters", "12"] if ck.tier == "quick" else ["-gaters", "300", "-limiters", "60"]
     recs = ck.run_harness(binp, args)
     if recs is None:
         return
+    before = len(ck.failures)
     evaluate(ck, recs)
+    fresh = [f for f in ck.failures[before:] if f.get("kind") == "input" and f.get("case")]
+    if fresh:
+        # real-time observations: a deviation is reported only if it reproduces when the same script/scenario is re-run alone
+        inp = os.path.join(ck.work, "confirm_in.jsonl")
+        with open(inp, "w") as fh:
+            for f in fresh:
+                fh.write(json.dumps(f["case"]) + "\n")
+        again = ck.run_harness(binp, ["-in", inp], out_name="confirm.jsonl")
+        if again is not None:
+            keep = ck.failures[:before] + [f for f in ck.failures[before:] if f not in fresh]
+            ev, nt = ck.cov["evaluations"], set(ck._distinct)
+            ck.failures = keep
+            mark = len(ck.failures)
+            evaluate(ck, again, tag="confirm_")
+            ck.cov["evaluations"], ck._distinct = ev, nt
+            ck.notes.append("%d case(s) off the oracle/model in the main run were re-run alone: %d reproduced" % (
+                len(fresh), len(ck.failures) - mark))
     for k in ("gater", "limiter", "hosts"):
         for r in [x for x in recs if x["k"] == k][:1]:
             s = dict(r)
@@ -208,7 +226,8 @@ def run(ck):
                       "loopback: connected/banned/refused in/out/after expiry). Distinct = distinct observation vectors")
     ck.extra["traces_validated_against_impl"] = len(recs)
     ck.assume += ["the gater's sweep goroutine (interval 50 ms) has run within the first 300 ms of a wall-clock second",
-                  "penalty scores stay far from the int64 range", "time.Now().Unix() is non-decreasing"]
+                  "penalty scores stay far from the int64 range", "time.Now().Unix() is non-decreasing",
+                  "a deviation in the real-time part is reported only if it reproduces when the same script/scenario is re-run alone"]
     if ck.tier == "thorough":
         ck.coqchk(["LE.Properties.C18"])
 
